@@ -19,6 +19,14 @@ from vlib.core import Infra
 LEVEL = "model_checking"
 
 
+def renumber_temps(text):
+    """compiler-introduced temporaries _vN renumbered by first occurrence (their numbering depends on the definitions before, see C07)"""
+    order = {}
+    def sub(m):
+        return "_v%d" % order.setdefault(m.group(0), len(order) + 1)
+    return re.sub(r"\b_v\d+\b", sub, text)
+
+
 def nospace(s):
     return re.sub(r"\s+", "", s)
 
@@ -66,6 +74,8 @@ def run_fns(ctx, fns, princ=None, tag=""):
     for f, p in zip(fns, princ):
         if not p["ok"]:
             continue          # ill-typed by the rules (clash / occurs check): not a function of the profile
+        if getattr(f, "selfcalls", 0) and p.get("resonly", 0) > 0:
+            continue          # a recursive call whose result type nothing determines (let f x = f x): Go cannot infer that type argument
         ground = [q for q, g in zip(f.params, p["ground"]) if g]
         subsets = [()]
         for k in range(1, len(ground) + 1):
@@ -102,7 +112,7 @@ def run_fns(ctx, fns, princ=None, tag=""):
                 decls, _ = fcutil.goast(ctx, "decls", gen)
                 if sigs is not None and decls is not None:
                     sm = {r["name"]: r for r in sigs}
-                    dm = {r["name"]: r["text"] for r in decls if r["kind"] == "func"}
+                    dm = {r["name"]: renumber_temps(r["text"]) for r in decls if r["kind"] == "func"}
                     for f, p, s in its:
                         results[(f.name, s)] = ("ok", sm.get(f.name), dm.get(f.name), gen)
                     return
